@@ -5,7 +5,7 @@
     recomputed from what the harness observes of one litestream Checkpoint call
     and compared with the branch the implementation took. *)
 From Coq Require Import List NArith ZArith Bool.
-From LS Require Import Base.Sx Db.Machine.
+From LS Require Import Base.Sx Db.Image Db.Machine.
 Import ListNotations.
 Open Scope N_scope.
 
@@ -96,3 +96,44 @@ Lemma machine_recheck_is_step (data : Type) (lock : N) (midcheck postcopy rechec
   step data lock midcheck postcopy recheck freshrule reachrule s (LsUnlock data) =
   Some (set_pc data s (PUnlocked m hg pre wn (post_rb recheck hg (gen data s)))).
 Proof. intros E. cbn. rewrite E. reflexivity. Qed.
+
+(** * Error exits: what a failed Checkpoint call leaves behind ([Machine.fail_st])
+
+    input  [syncedToWALEnd before; reachedWALEnd before; lastSyncedWALOffset before (frames);
+            released]   released = 1 iff the call had released the read lock (it got as far as
+                        execCheckpoint's PRAGMA) before it failed; the harness emits the case only
+                        when no copy of the call had changed the sync state before the failure
+    output [syncedToWALEnd after; reachedWALEnd after; lastSyncedWALOffset after (frames);
+            read transaction held after the call]
+    The machine's own error-exit step on a state with that sync state, in the control state
+    [PReleased] (read lock released, mark None) resp. [PCopied] (mark held): the flags are cleared
+    iff [fail_clears], the offset is kept, the read lock is held again. *)
+Definition fail_observed (clear : bool) (x : sx) : sx :=
+  let e := asB (nthx 0 x) in
+  let r := asB (nthx 1 x) in
+  let off := N.to_nat (asN (nthx 2 x)) in
+  let released := asB (nthx 3 x) in
+  let s0 : state N :=
+    mkSt N (fun _ => 0) 1 0 [[mkF N 1 1 0]] 0 1 [(O, mkF N 1 1 0)]
+         (if released then None else Some 1%nat) false true [] 0 0 0
+         (mkSess e off false None r)
+         (if released then PReleased Full O O else PCopied Full O) Lost [] [] in
+  let s1 := fail_st N s0 clear in
+  SL [sxB (flag N s1); sxB (reached N s1); sxN (N.of_nat (lastoff N s1));
+      sxB (match ls_mark N s1 with Some _ => true | None => false end)].
+
+(** /repo HEAD (commit a1345df) *)
+Definition machine_fail (x : sx) : sx := fail_observed true x.
+
+Example machine_fail_examples :
+  machine_fail (SL [sxB true; sxB true; sxN 5; sxB true]) = SL [sxB false; sxB false; sxN 5; sxB true] /\
+  machine_fail (SL [sxB true; sxB true; sxN 5; sxB false]) = SL [sxB true; sxB true; sxN 5; sxB true] /\
+  fail_observed false (SL [sxB true; sxB true; sxN 5; sxB true]) = SL [sxB true; sxB true; sxN 5; sxB true].
+Proof. vm_compute. repeat split; reflexivity. Qed.
+
+(** the entry is the machine's own step *)
+Lemma machine_fail_is_step (data : Type) (lock : N) (midcheck postcopy recheck freshrule reachrule : bool)
+      (s : state data) (c : bool) :
+  in_call (pc data s) = true -> opened data s = true ->
+  step data lock midcheck postcopy recheck freshrule reachrule s (LsFail data c) = Some (fail_st data s c).
+Proof. intros A B. cbn. rewrite A, B. reflexivity. Qed.
